@@ -190,6 +190,12 @@ func genName(t *rapid.T, maxDepth int, label string) string {
 	for i := range c {
 		// bias towards "a" so that names share prefixes
 		c[i] = alphabet[rapid.SampledFrom([]int{0, 0, 0, 1, 1, 2}).Draw(t, label+"c")]
+		// now and then a typed component, and a pair of names whose bytes can be split in two
+		// ways: /a/32=b and /a%00/8290= (type 8290 = 0x2062: "8-byte type, value" without a
+		// length reads the same for both -- the hash-table FIB keys its entries by name hash)
+		if x := rapid.IntRange(0, 39).Draw(t, label+"odd"); x < 3 {
+			c[i] = []string{"32=b", "a%00", "8290="}[x]
+		}
 	}
 	return join(c)
 }
